@@ -1,4 +1,9 @@
-"""G4 - value provenance.  G0-G3 ask *whether* a runtime step or a state write happens; G4 asks *from what* the values involved
+"""G4 - value provenance (EXPERIMENTAL, NOT ARMED: no check calls G4; see DESIGN.md section 13).  Measured with
+selftest/netdiff.py on the 216 applicable behaviour-preserving edits it raised 27 false alarms (12.5 %) after two rounds of
+refinement - loop <-> iterator conversions, hoisting and tuple returns change which sub-expressions are visible - so it is kept
+as a developer tool only.
+
+G4 - value provenance.  G0-G3 ask *whether* a runtime step or a state write happens; G4 asks *from what* the values involved
 are computed.  For every call of one crate-local function by another, per argument position, for every assignment to a field
 of a loom type, and for every returned value, the *vocabulary* of the value expression is recorded on the reference tree
 (lint/reference.json, "value_vocab"): the loom-local `Adt.field`s it reads (through local helpers, captured variables and
